@@ -55,6 +55,8 @@ fn generate_vector_queries(
 ) -> Vec<Query> {
     let mut vector_queries = Vec::new();
     for i in 0..queries.len() {
+        #[cfg(swiftness_verif)]
+        swiftness_transcript::verif::tick("table.row", 1 + n_columns as u64);
         let hash = if n_columns == 1 {
             values[i]
         } else if is_verifier_friendly {
